@@ -121,6 +121,7 @@ struct Stats {
 	std::string path;
 
 	void record(Ctx const& c) {
+		if(c.counters.count("inconclusive_infrastructure") != 0) { counters["inconclusive_infrastructure"] += 1; return; }  // the harness could not judge this case: not an evaluation
 		++evaluations;
 		auto h = fnv1a(c.desc.s);
 		all_hashes.insert(h);
@@ -203,6 +204,27 @@ inline void on_abort(int sig) {
 	raise(sig);
 }
 
+// A case whose *harness* could not do its work (fork refused under memory pressure, no scratch file, a forked helper timed out under load):
+// never a failure of the property, never counted as an evaluation; the count is reported in the evidence ("inconclusive_infrastructure").
+struct Inconclusive { std::string why; };
+
+// fork() of a sanitizer-instrumented process can fail transiently (ENOMEM / EAGAIN under load): retry with back-off before giving up
+inline pid_t fork_retry() {
+	for(int attempt = 0; attempt < 12; ++attempt) {
+		pid_t pid = fork();
+		if(pid >= 0) { return pid; }
+		usleep(static_cast<useconds_t>(50000 * (attempt + 1)));
+	}
+	return -1;
+}
+
+// first thing in a helper process forked *by a harness* (death tests, per-case children): in fork mode it inherits the case runner's crash reporting,
+// and its expected abort must not be reported through the runner's result pipe
+inline void detach_crash_reporting() {
+	crash_fd() = -1;
+	signal(SIGABRT, SIG_DFL); signal(SIGSEGV, SIG_DFL); signal(SIGBUS, SIG_DFL); signal(SIGFPE, SIG_DFL); signal(SIGILL, SIG_DFL);
+}
+
 template<class Prop>
 Outcome run_inproc(std::vector<std::uint8_t> const& bytes, bool record) {
 	Input in; in.bytes = bytes; in.H = Prop::H; in.R = Prop::R;
@@ -213,6 +235,8 @@ Outcome run_inproc(std::vector<std::uint8_t> const& bytes, bool record) {
 		Prop::run(in, ctx);
 	} catch(Fail const& f) {
 		o.ok = false; o.key = f.key; o.msg = f.msg;
+	} catch(Inconclusive const& i) {
+		ctx.nontrivial = false; ctx.labels.clear(); ctx.count("inconclusive_infrastructure"); ctx.desc << " [inconclusive: " << i.why << "]";
 	}
 	current_ctx() = nullptr;
 	o.desc = ctx.desc.s;
@@ -228,7 +252,7 @@ Outcome run_forked(std::vector<std::uint8_t> const& bytes) {
 	char errpath[] = "/dev/shm/vp_err_XXXXXX";
 	int efd = mkstemp(errpath);
 	std::fflush(nullptr);
-	pid_t pid = fork();
+	pid_t pid = fork_retry();
 	if(pid < 0) { std::perror("fork"); std::exit(3); }
 	if(pid == 0) {
 		close(fd[0]);
